@@ -46,8 +46,11 @@ def check_full_codes(prog, check, rule='C18.R4'):
              'FullCode is assigned in one function (%s)' % sorted(fs) if len(fs) == 1 else 'FullCode is assigned in %s' % sorted(fs),
              'embedding an economy: every sector must follow the same prefix rule')
     if len(fs) == 1:
-        f = writers[0][0]
-        check.saw(f)
+        from ..inline import flatten
+        check.saw(writers[0][0])
+        f = flatten(prog, writers[0][0])
+        writers = [(f, n) for n in ast.walk(f.node) if isinstance(n, ast.Assign) and isinstance(n.targets[0], ast.Attribute) and
+                   n.targets[0].attr == 'FullCode' and not (isinstance(n.value, ast.Constant) and n.value.value == '')]
         from ..dataflow import single_assign_subst
         sub = single_assign_subst(f.node)
         prefixed = [n for ff, n in writers if isinstance(n.value, ast.BinOp)]
